@@ -26,7 +26,7 @@ ASSUMPTIONS = [
     "create_gantt_chart_frames is driven with a stub Figure (savefig is a no-op); its replay loop is the real code",
 ]
 BOUNDS = {
-    "quick": "K3 complete; K3r (flexible machine lists in descending order); K4[seed%16::16]; probes P (up to 10 ops) - all histories, every prefix",
+    "quick": "K3 complete; K3r (flexible machine lists in descending order); K4[seed%16::16]; K5 (five operations)[seed%128::128]; probes P (up to 10 ops) - all histories, every prefix",
     "thorough": "K3, K4 complete; M3; NF5[seed%8::8]; probes P; TLC cross-check on 3 instances (every edge replayed)",
 }
 
@@ -37,11 +37,13 @@ def cases(tier, seed):
     if tier == "quick":
         out += [("tree", s) for s in F.sliced(F.K4(), seed % 16, 16)]
         out += [("tree", s) for s in F.P_ALL + F.P_HUGE]
+        out += [("tree", s) for s in F.sliced(F.K5(), seed % 128, 128)]
         out.append(("tlc", 0))
     else:
         out += [("tree", s) for s in F.K4()]
         out += [("tree", s) for s in F.M3()]
         out += [("tree", s) for s in F.sliced(F.NF5(), seed % 8, 8)]
+        out += [("tree", s) for s in F.sliced(F.K5(), seed % 16, 16)]
         out += [("tree", s) for s in F.P_ALL]
         out += [("tlc", k) for k in range(3)]
     return out
